@@ -197,6 +197,12 @@ let dispatch (fn : string) (args : sx list) : sx =
   | "presorted_divisions", [l] -> of_opt (of_list of_z) (presorted_divisions (get_list (get_pair get_z get_z) l))
   | "align_divisions", [ds] -> of_list of_z (align_divisions (get_list (get_list get_z) ds))
   | "align_single", [ds] -> of_list of_z (align_single (get_list (get_list get_z) ds))
+  | "head_lowered", [n; k; parts] -> of_list of_z (head_lowered (get_nat n) (get_nat k) (get_list (get_list get_z) parts))
+  | "tail_lowered", [n; parts] -> of_list of_z (tail_lowered (get_nat n) (get_list (get_list get_z) parts))
+  | "nfirst_tree", [n; parts] ->
+      of_list (of_pair of_z of_z) (nfirst_tree fst (get_nat n) (get_list (get_list (get_pair get_z get_z)) parts))
+  | "nfirst_spec", [n; parts] ->
+      of_list (of_pair of_z of_z) (nfirst_spec fst (get_nat n) (get_list (get_list (get_pair get_z get_z)) parts))
   | "loc_model", [divs; parts; lo; hi] ->
       let d = get_list get_z divs and ps = get_list (get_list get_z) parts and l = get_opt get_z lo and h = get_opt get_z hi in
       (* nested like the Coq tuple (start, stop, divisions, parts) = (((start, stop), divisions), parts) *)
